@@ -249,8 +249,8 @@ def run(ctx):
                            "explain": "UUID() re-computed from %d goroutines at once differs from the sequentially computed UUID of the same value" % r["goroutines"],
                            "failing_input": {"calls": r["calls"], "wrong": r["wrong"], "examples": r["examples"]}})
     ctx.cov["concurrent_uuid"] = [{k: v for k, v in r.items() if k != "examples"} for r in conc]
-    if thorough:
-        # the same concurrent run under the race detector
+    if True:
+        # a lighter concurrent run under the race detector (16 goroutines, literals up to 32 KiB)
         import subprocess
         h = os.path.join(vcheck.VERIF, "harness")
         exe = os.path.join(vcheck.BIN, "h_values_race")
@@ -261,7 +261,7 @@ def run(ctx):
         if rc != 0:
             ctx.notes.append("race-enabled harness could not be built: " + out[-300:])
         else:
-            p = subprocess.run([exe, "-mode", "uuidconc", "-n", "40"], cwd=vcheck.REPO, env=vcheck.goenv(), stdout=subprocess.PIPE,
+            p = subprocess.run([exe, "-mode", "uuidconc", "-n", "40", "-light"], cwd=vcheck.REPO, env=vcheck.goenv(), stdout=subprocess.PIPE,
                                stderr=subprocess.PIPE, timeout=900, text=True)
             races = p.stderr.count("WARNING: DATA RACE")
             ctx.cov["race_detector"] = {"data_races": races, "exit": p.returncode}
